@@ -75,7 +75,7 @@ def gen_case(rng, wd, job_exe):
     c["shell"] = rng.choice(["/bin/sh", "/bin/sh", "/bin/bash", "/bin/dash"])
     if not os.path.exists(c["shell"]):
         c["shell"] = "/bin/sh"
-    c["umask"] = rng.choice([0o22, 0o27, 0o77, 0o0, 0o66, 0o137])
+    c["umask"] = rng.choice([0o22, 0o27, 0o77, 0o0, 0o66, 0o137, 0o777, 0o776, 0o700, 0o1, rng.randint(0, 0o777)])
     c["norun"] = rng.random() < 0.08
     # the files may be there already, from an earlier and more talkative run
     c["stale"] = rng.random() < 0.35
